@@ -88,9 +88,38 @@ Definition mapper_ok (s n i off : N) (lim : bool) (lo hi x : N) (conv : outcome)
      else true)
   else true.
 
+(** The banked mapper names the module of bank address / BankSize and panics
+    when there is no such module (or BankSize = 0). *)
+Definition banked_ok (c : case) (r : row) : bool :=
+  mres_eqb (r_banked r)
+    (if c_bsize c =? 0 then MPanic
+     else if r_x r / c_bsize c <? c_blen c then MIdx (r_x r / c_bsize c) else MPanic).
+
+(** Bank dispatch of simplebankedmemory (when probed), for a sane bank selector
+    (log2 < 64, 1 <= NumBanks < 2^63): with the interleaving conversion enabled
+    and a well-formed converter configuration a request for an owned address is
+    steered by its internal (controller-local) address, a request for any other
+    address panics; with the conversion disabled the global address is used. *)
+Definition bank_ok (c : case) (r : row) : bool :=
+  let s := c_s c in let n := Z.to_N (c_n c) in let i := Z.to_N (c_i c) in
+  let off := c_off c in let x := r_x r in let nb := Z.to_N (c_nb c) in
+  match r_bank r with
+  | None => true
+  | Some b =>
+      if (c_log2 c <? 64) && (1 <=? c_nb c)%Z && (c_nb c <? Z.of_N two63)%Z then
+        if c_kind_empty c then opt_eqb Z.eqb b (Some (Z.of_N (x / 2 ^ c_log2 c mod nb)))
+        else if cfg_ok c then
+          if ownedb s n i off x
+          then opt_eqb Z.eqb b (Some (Z.of_N (internal_of s n off x / 2 ^ c_log2 c mod nb)))
+          else opt_eqb Z.eqb b None
+        else true
+      else true
+  end.
+
 (** The property on one probed address, from the observed outputs and the
     specification formulas only. *)
 Definition row_ok (c : case) (r : row) : bool :=
+  banked_ok c r && bank_ok c r &&
   let s := c_s c in let n := Z.to_N (c_n c) in let i := Z.to_N (c_i c) in
   let off := c_off c in let x := r_x r in
   outcome_eqb (r_conv r) (r_addr r) &&
